@@ -42,8 +42,23 @@ def classify(cond, BOARD_LOOP, MV):
     if m is not None:
         return 'not-capture'
     if c[0] == 'call' and (c[1] == 'core::cmp::PartialEq::ne' or c[1].endswith('PartialEq>::ne') or c[1].endswith('PartialEq>::eq')):
-        if all(a[0] == 'call' and a[1] == 'board::Board::castle_rights' for a in c[2]):
-            return 'rights-changed'
+        if all(a[0] == 'call' and a[1] == 'board::Board::castle_rights' for a in c[2]) and len(c[2]) == 2:
+            # a change of rights compares the SAME side's rights on two boards: the colour arguments must denote one colour
+            # (side_to_move of the board after a move is the opposite of the one before it: C02)
+            def colour(x):
+                x = norm(x)
+                if x[0] == 'call' and x[1] == '<color::Color as core::ops::bit::Not>::not':
+                    y = colour(x[2][0])
+                    return y[1] if y[0] == 'cnot' else ('cnot', y)
+                if x[0] == 'call' and x[1] == 'board::Board::side_to_move' and x[2][0][0] == 'call' and \
+                        x[2][0][1] in ('board::Board::make_move_new',):
+                    y = colour(('call', 'board::Board::side_to_move', (x[2][0][2][0],), ()))
+                    return y[1] if y[0] == 'cnot' else ('cnot', y)
+                return x
+            c1, c2 = colour(c[2][0][2][1]), colour(c[2][1][2][1])
+            if c1 == c2:
+                return 'rights-changed'
+            return 'other: castling rights of different sides compared (%s vs %s)' % (sh(c1, 60), sh(c2, 60))
         none = ('agg', 'core::option::Option', 'None', ())
         for x, y in ((c[2][0], c[2][1]), (c[2][1], c[2][0])) if len(c[2]) == 2 else ():
             if y == none and match(call('board::Board::piece_on', V('b'), dst), x) is not None:
